@@ -1,6 +1,7 @@
-\* two user contracts + system contract, two slots, values {0,1}, <= 3 blocks, diffs of <= 3 entries
+\* user contract + system contract 0x1, two slots, values {0,1}, <= 4 blocks, diffs of <= 2 entries
+\* measured: 152 931 distinct states, ~2-5 min on 4 workers
 CONSTANTS
-  Users = {"c1", "c2"}
+  Users = {"c1"}
   Sys = {"sys1"}
   Slots = {"s1", "s2"}
   MaxV = 1
@@ -8,8 +9,8 @@ CONSTANTS
   Sierra = {}
   TxIds = {}
   L1Txs = {}
-  MaxBlocks = 3
-  MaxOps = 3
+  MaxBlocks = 4
+  MaxOps = 2
   MaxTxs = 0
   Vers = {0}
   FixH4 = TRUE
